@@ -29,13 +29,13 @@ deriving Repr, DecidableEq, Inhabited
 
 /-- `fixes/C19-engine-total-per-attempt.patch`: engine `TotalRequests` counts attempts (+ candidate-less
     requests) instead of requests. -/
-def engineTotals : Variant := .pinned
+def engineTotals : Variant := .fixed
 /-- `fixes/C19-error-status-is-failure.patch`: a relayed backend answer with status >= 400 is recorded as a failure. -/
-def errorStatus : Variant := .pinned
+def errorStatus : Variant := .fixed
 /-- a stream cut by the client (`context.Canceled`) is recorded as a success (no patch: existing tests encode it). -/
-def clientAbort : Variant := .pinned
+def clientAbort : Variant := .fixed
 /-- `fixes/C19-translator-error-flag.patch`: the translator success flag follows the status the client was sent. -/
-def translatorFlag : Variant := .pinned
+def translatorFlag : Variant := .fixed
 
 /-! ### Interleavings -/
 
